@@ -87,6 +87,24 @@ fn same_oracle(c: &SameCase, st: &mut Stats) -> Result<(), String> {
   let mut rnds = Vec::new();
   let mut shares: Vec<Share> = Vec::new();
   let mut reports = Vec::new();
+  // two more clients run on threads of their own (evaluation points must still be distinct)
+  let threaded: Vec<Result<Vec<u8>, String>> = std::thread::scope(|sc| {
+    let hs: Vec<_> = (0..2)
+      .map(|_| {
+        let tr = &*tr;
+        sc.spawn(move || {
+          let g = starx::mg(&tr.m, t, &tr.e);
+          let rnd = starx::local_rnd(&g);
+          starx::report(&g, &rnd, None).map(|r| r.share.to_bytes())
+        })
+      })
+      .collect();
+    hs.into_iter().map(|h| h.join().expect("client thread")).collect()
+  });
+  for r in threaded {
+    let b = r?;
+    shares.push(Share::from_bytes(&b).ok_or("share of a threaded client does not decode")?);
+  }
   for i in 0..n {
     // every client builds its own generator from scratch
     let g = starx::mg(&tr.m, t, &tr.e);
@@ -159,7 +177,7 @@ fn same_oracle(c: &SameCase, st: &mut Stats) -> Result<(), String> {
   }
   // mutually combinable: a generated selection of t of them recovers, and the
   // key of the WASM path decrypts the reports of the Message path
-  let sel = c.sel.build(n, t as usize);
+  let sel = c.sel.build(shares.len(), t as usize);
   let chosen: Vec<Share> = sel.iter().map(|i| shares[*i].clone()).collect();
   let msg = share_recover(&chosen)
     .map_err(|e| format!("shares of independent clients do not combine (selection {:?}, t={t}): {e}", sel))?
